@@ -627,8 +627,13 @@ void
 		Glu->stack.top1 += extra;
 		Glu->stack.used += extra;
 		if ( type == UCOL ) {
-		    Glu->stack.top1 += extra;   /* Add same amount for USUB */
-		    Glu->stack.used += extra;
+		    /* Add room for as many USUB entries: at least the same
+		       amount, more when int_t is wider than a value
+		       (single precision with 64-bit indices) */
+		    int_t extra_usub = (new_len - *prev_len) * sizeof(int_t);
+		    if ( extra_usub < extra ) extra_usub = extra;
+		    Glu->stack.top1 += extra_usub;
+		    Glu->stack.used += extra_usub;
 		}
 		
 	    } /* end expansion */
